@@ -75,15 +75,90 @@ def _skeleton(pat):
     seq.append(("lit", bytes(lit)))
     kinds = [s[0] for s in seq]
     if kinds != ["lit", "group", "lit"]:
-        raise Undecided(f"regex skeleton {kinds} on a symbolic payload (supported: literal, one group, literal)")
+        if len(kinds) > 3 and kinds == ["lit", "group"] * (len(kinds) // 2) + ["lit"]:
+            raise _Multi(seq)
+        raise Undecided(f"regex skeleton {kinds} on a symbolic payload (supported: literal, (group, literal)+)")
     return seq[0][1], seq[1][1], seq[1][2], seq[2][1]
+
+
+class _Multi(Exception):
+    def __init__(self, seq):
+        self.seq = seq
+
+
+def _sym_match_multi(pat, how, cells, seq):
+    """LIT0 (g1) LIT1 (g2) ... (gn) LITn on  C0 B1 C1 B2 ... Bn Cn  (one payload per group).  The payloads of all
+    groups but the last are taken to be free of the literals (identifiers); the last one is arbitrary:
+      no DOTALL                         -> no match (a payload may contain a newline byte)
+      greedy group before the last      -> adversarial: it overruns into a later payload that contains its closing
+                                           literal  (<payload>~overrun)
+      lazy last group, search / match   -> adversarial: cut at the closing literal inside the payload (<payload>~cut)"""
+    lits = [x[1] for x in seq if x[0] == "lit"]
+    groups = [x for x in seq if x[0] == "group"]
+    if any(not isinstance(c, (int, Blob)) for c in cells):
+        raise Undecided("regex on a byte string with symbolic single bytes")
+    segs, blobs, cur = [], [], bytearray()
+    for c in cells:
+        if isinstance(c, Blob):
+            segs.append(bytes(cur))
+            cur = bytearray()
+            blobs.append(c)
+        else:
+            cur.append(c)
+    segs.append(bytes(cur))
+    if len(blobs) != len(groups):
+        raise Undecided(f"regex with {len(groups)} groups on a byte string with {len(blobs)} payloads")
+    # opening literal
+    if how == "search":
+        i = segs[0].find(lits[0])
+        if i < 0:
+            raise Undecided("regex search whose opening literal is not in the concrete prefix")
+    else:
+        if not segs[0].startswith(lits[0]):
+            return None
+        i = 0
+    head = segs[0][i + len(lits[0]):]
+    if not pat.flags & re.DOTALL:
+        return None
+    out = []
+    n = len(groups)
+    for gi in range(n):
+        _g, lazy, _lo = groups[gi]
+        seg, lit = segs[gi + 1], lits[gi + 1]
+        last = gi == n - 1
+        if not last:
+            j = seg.find(lit)
+            if j < 0:
+                return None   # the closing literal of this group is not where the frame has it
+            if not lazy:
+                out.append(SymBytes(list(head) + [Blob(blobs[gi].name + "~overrun")]))
+            else:
+                out.append(SymBytes(list(head) + [blobs[gi]] + list(seg[:j])))
+            head = seg[j + len(lit):]
+        else:
+            if how == "fullmatch":
+                if not seg.endswith(lit):
+                    return None
+                j = len(seg) - len(lit)
+            else:
+                j = seg.rfind(lit)
+                if j < 0:
+                    return None
+            if lazy and how != "fullmatch" and lit:
+                out.append(SymBytes(list(head) + [Blob(blobs[gi].name + "~cut")]))
+            else:
+                out.append(SymBytes(list(head) + [blobs[gi]] + list(seg[:j])))
+    return SymMatch(out)
 
 
 def sym_match(pat, how, subject):
     if how not in ("search", "match", "fullmatch"):
         raise Undecided(f"pattern.{how} on a symbolic payload")
     cells = subject.cells
-    lit_a, lazy, lo, lit_b = _skeleton(pat)
+    try:
+        lit_a, lazy, lo, lit_b = _skeleton(pat)
+    except _Multi as m:
+        return _sym_match_multi(pat, how, cells, m.seq)
     if how != "search":
         k = 0
         while k < len(cells) and isinstance(cells[k], int):
